@@ -69,9 +69,25 @@ impl Failure {
         Failure { sig: None, msg: msg.into(), input: input.into() }
     }
     pub fn with_sig(mut self, sig: &str) -> Self {
-        self.sig = Some(sig.to_owned());
+        self.sig = Some(if sig == "panic" { refine_panic_signature(&self.msg, &self.input).to_owned() } else { sig.to_owned() });
         self
     }
+}
+
+pub const SIG_HOLE_UNDER_BINDER: &str = "hole-written-under-a-binder-loses-the-shift-of-its-type";
+
+/// A panic is normally just `panic`. One recorded finding is recognised by its call site and the
+/// shape of the input: the normaliser's context lookup (src/normalizer.rs, Variable arm) is handed
+/// an index beyond the context - in the shipped binary `index out of bounds`, with overflow checks
+/// `attempt to subtract with overflow` - while checking a program that contains an explicit `_`
+/// hole (a hole written under a binder of a type, e.g. `int -> _`, is solved with indices that are
+/// off by the shift its type received later; see known_findings.json).
+pub fn refine_panic_signature(msg: &str, input: &str) -> &'static str {
+    let at_lookup = msg.contains("normalizer.rs") && (msg.contains("index out of bounds") || msg.contains("attempt to subtract with overflow"));
+    let chars: Vec<char> = input.chars().collect();
+    let word = |c: char| c.is_alphanumeric() || c == '_';
+    let has_hole = (0..chars.len()).any(|i| chars[i] == '_' && (i == 0 || !word(chars[i - 1])) && (i + 1 == chars.len() || !word(chars[i + 1])));
+    if at_lookup && has_hole { SIG_HOLE_UNDER_BINDER } else { "panic" }
 }
 
 pub type Outcome = Result<(), Failure>;
